@@ -431,12 +431,11 @@ def run(chk):
         # a program that fails at every stack depth in a range, followed by filter actions that declare locals (the filters run
         # on the stack the failure left behind)
         depth_progs = []
-        depths = sorted(set(list(range(1, 40)) + list(range(56, 72)) + list(range(120, 136)) + list(range(248, 264)) + list(range(504, 520)) + list(range(1016, 1032))
-                            + list(range(2040, 2056)) + [3000, 4000, 4090, 4093, 4094, 4095]))
-        if quick:
-            depths = [d for k_, d in enumerate(depths) if k_ % 2 == 0 or 120 <= d <= 136 or 248 <= d <= 264]
+        depths = list(range(1, 700 if quick else 1400)) + [2040, 2047, 2048, 2049, 3000, 4000, 4090, 4093, 4094, 4095]
         for d in depths:
-            depth_progs.append("fn f(n) { if n == 0 { 1 / 0 } else { 1 + f(n - 1) } } f(%d); @ true { let l1 = NP; let l2 = PL; let l3 = l1 + l2; puts(l3 - l3); } @ end { let e1 = 1; let e2 = [e1]; puts(len(e2)); }" % d)
+            # two frame sizes (3 and 5 slots per level), so that every stack height is left behind by some depth
+            shape = ("fn f(n) { if n == 0 { 1 / 0 } else { 1 + f(n - 1) } } f(%d);" if d % 2 else "fn f(n, m) { if n == 0 { [1][m] } else { 1 + (2 + f(n - 1, m)) } } f(%d, 9);") % d
+            depth_progs.append(shape + " @ true { let l1 = NP; let l2 = PL; let l3 = l1 + l2; puts(l3 - l3); } @ end { let e1 = 1; let e2 = [e1]; let e3 = 3; let e4 = 4; puts(len(e2)); }")
         pcap_d = os.path.join(work, "depth.pcap")
         with open(pcap_d, "wb") as f:
             f.write(one_packet_pcap(2))
@@ -448,7 +447,7 @@ def run(chk):
             if rr["timeout"]:
                 chk.inconc("timeout (depth program)")
                 continue
-            chk.observed(("fail-depth-then-filters", min(depths[k], 300) // 10, k % 2))
+            chk.observed(("fail-depth-then-filters", min(depths[k], 700) // 20, k % 2))
             if core.crashed(rr):
                 report_crash(chk, prog, rr, "filter-after-failure")
         # filter programs end to end
